@@ -25,6 +25,7 @@ pub fn gen_spec(rng: &mut Rng) -> OptSpec {
     o.cmd_depth = 1;
     o.max_named = 5;
     o.completers = true;
+    o.usage_fallback = true;
     let mut spec = gen_options(rng, o);
     // a non-default width only changes where text wraps; keep it predictable for short help
     if rng.chance(1, 4) {
@@ -114,7 +115,46 @@ pub fn run_case(case: &mut Case) {
     };
     let n_vec = if case.thorough { 40 } else { 16 };
     for vi in 0..n_vec {
+        // a sentence with one numeric value made unconvertible is a parse failure for certain
+        let mut sure_failure = false;
         let mut argv: Vec<Vec<u8>> = match vi % 4 {
+            1 if vi % 8 == 1 => {
+                let mut g = Gen::new(&mut rng);
+                match sentence(
+                    &b.spec.root,
+                    &mut g,
+                    OrderStyle::Random,
+                    DashDash::IfNeeded,
+                    SpellStyle::Canonical,
+                ) {
+                    Some((_, mut units, l)) => {
+                        let numeric: Vec<usize> = (0..units.len())
+                            .filter(|i| match &units[*i].kind {
+                                UKind::Arg { item, .. } | UKind::Word { item, .. } => b
+                                    .spec
+                                    .root
+                                    .find_item(*item)
+                                    .and_then(Item::ty)
+                                    .map_or(false, |t| t.is_num()),
+                                _ => false,
+                            })
+                            .collect();
+                        if numeric.is_empty() {
+                            l.argv
+                        } else {
+                            let at = *rng.pick(&numeric);
+                            if let UKind::Arg { value, .. } | UKind::Word { value, .. } =
+                                &mut units[at].kind
+                            {
+                                *value = b"12x".to_vec();
+                            }
+                            sure_failure = true;
+                            render(&units, &mut rng, SpellStyle::Canonical).argv
+                        }
+                    }
+                    None => Vec::new(),
+                }
+            }
             0 | 1 => {
                 let mut g = Gen::new(&mut rng);
                 g.hostile = vi % 4 == 1;
@@ -137,6 +177,7 @@ pub fn run_case(case: &mut Case) {
         }
         // help / version / completion requests
         match rng.below(8) {
+            _ if sure_failure => {}
             0 => {
                 let at = rng.below(argv.len() + 1);
                 let n = b.spec.help_names();
@@ -223,6 +264,22 @@ pub fn run_case(case: &mut Case) {
                     .set("child_stderr", show_bytes(&out.stderr[..out.stderr.len().min(300)]))
                     .set("verdict", if same { "held" } else { "violated" }),
             );
+        }
+        if sure_failure {
+            case.rep.count("class:sure-failure-lines");
+            if !pred.class.starts_with("stderr") || status != 1 {
+                case.rep.violation(
+                    &format!("parse-failure-not-on-stderr:{}", pred.class),
+                    "failure-class",
+                    case.index,
+                    case_json(&b.spec, &argv)
+                        .set("argv0", show_bytes(&arg0))
+                        .set("expected", "stderr, status 1 (a numeric value was replaced by `12x`)")
+                        .set("child_status", i64::from(status))
+                        .set("child_stdout", show_bytes(&out.stdout[..out.stdout.len().min(300)]))
+                        .set("child_stderr", show_bytes(&out.stderr[..out.stderr.len().min(300)])),
+                );
+            }
         }
         if pred.class == "stderr-empty-message" {
             case.rep.violation(
